@@ -404,7 +404,7 @@ func runC01(c *Ctx) {
 	for def := ref.Mode(0); def < ref.NumModes; def++ {
 		c.Parallel("pairs", def, func(sh *mon.Shard, r *gen.RNG) {
 			j := &addJudge{ctx: c, sh: sh}
-			n := c.N(3000, 60000)
+			n := c.N(12000, 150000)
 			for i := 0; i < n; i++ {
 				switch {
 				case i%50 == 49:
